@@ -24,8 +24,26 @@ def check(ctx):
     ctx.rule("R-C04.2", "lookup: scopes are searched innermost first and the first scope containing the name decides; the lexer consults the keyword map, then the typedef lookup, and only that produces TYPEID")
     ctx.rule("R-C04.3", "registration table: every call site that registers declared names does so as the reviewed reference says (typedef_namespace flag, typedef vs identifier, enumerators, parameters of a definition)")
     ctx.rule("R-C04.4", "tags, members and labels never register a name")
+    ctx.rule("R-C04.5", "re-declaration of a visible type name: once a type specifier was seen (saw_type on every type-specifier branch), a TYPEID ends the specifiers and is the declared identifier")
     px, lx = S.module("c_parser"), S.module("c_lexer")
     cg = CG.ClassCalls("c_parser", "CParser")
+    # ---- R-C04.5 -------------------------------------------------------------
+    from . import c03
+    n5 = 0
+    for m in ("_parse_declaration_specifiers", "_parse_specifier_qualifier_list"):
+        for br, c in c03.type_specifier_branches(px, m):
+            c03.saw_type_rule(ctx, "R-C04.5", px, m, br, c)
+            n5 += 1
+        fn = px.method("CParser", m)
+        # the TYPEID branch stops the specifier loop when a type was already seen
+        tybr = [b for b in ast.walk(fn) if isinstance(b, ast.If) and "TYPEID" in S.unparse(b.test) and "tok.type" in S.unparse(b.test)]
+        ok = any(isinstance(s0, ast.If) and S.unparse(s0.test) == "saw_type" and any(isinstance(x, ast.Break) for x in s0.body) and b.body.index(s0) == 0 for b in tybr for s0 in b.body[:1])
+        ctx.oblige("R-C04.5", f"{m}: a TYPEID after a type specifier ends the specifier list", ok)
+        if not ok:
+            ctx.violation("R-C04.5", f"typeid-break:{m}", f"{m}: the TYPEID branch does not start with `if saw_type: break`: a typedef name that follows a type specifier is consumed as a second type specifier, so `int T;` can no longer hide the typedef T",
+                          file=px.rel, function=f"CParser.{m}")
+    if n5 < 8:
+        raise AnalysisError(f"only {n5} type-specifier branches found in the specifier loops (confirmed by reading: 10)")
     # ---- R-C04.1 -------------------------------------------------------------
     for target, only in (("_push_scope", {"_lex_on_lbrace_func"}), ("_pop_scope", {"_lex_on_rbrace_func"})):
         callers = cg.callers(target)
